@@ -47,6 +47,36 @@ MUT = {
 	defer mock.lock{{.Name}}.Unlock()
 	mock.calls.{{.Name}} = append(mock.calls.{{.Name}}, callInfo)
 {{- if .Returns}}""")],
+ "resetcalls_skips_middle": [(T, """	{{- range .Methods}}
+	mock.lock{{.Name}}.Lock()
+	mock.calls.{{.Name}} = nil
+	mock.lock{{.Name}}.Unlock()
+	{{end -}}""", """	{{- range $mi, $mm := .Methods}}
+	{{- if ne $mi 1}}
+	mock.lock{{.Name}}.Lock()
+	mock.calls.{{.Name}} = nil
+	mock.lock{{.Name}}.Unlock()
+	{{- end}}
+	{{end -}}""")],
+ "resetm_also_resets_neighbour": [(T, """func (mock *{{$mock.StructName}}{{ $mock.TypeInstantiation }}) Reset{{.Name}}Calls() {
+	mock.lock{{.Name}}.Lock()
+	mock.calls.{{.Name}} = nil
+	mock.lock{{.Name}}.Unlock()""", """func (mock *{{$mock.StructName}}{{ $mock.TypeInstantiation }}) Reset{{.Name}}Calls() {
+	mock.lock{{.Name}}.Lock()
+	mock.calls.{{.Name}} = nil
+	mock.lock{{.Name}}.Unlock()
+	{{- if eq .Name (index $mock.Methods 0).Name}}
+	mock.calls.{{(index $mock.Methods 1).Name}} = nil
+	{{- end}}""")],
+ "stub_chan_result_made": [(T, """		{{- range .Returns}}
+			{{.Name}} {{.TypeString}}
+		{{- end}}
+		)
+		return {{.ReturnArgNameList}}""", """		{{- range .Returns}}
+			{{.Name}} {{.TypeString}}{{if hasPrefix "chan " .TypeString}} = make({{.TypeString}}){{end}}
+		{{- end}}
+		)
+		return {{.ReturnArgNameList}}""")],
  "resetcalls_skips_last": [(T, """func (mock *{{$mock.StructName}}{{ $mock.TypeInstantiation }}) ResetCalls() {
 	{{- range .Methods}}""", """func (mock *{{$mock.StructName}}{{ $mock.TypeInstantiation }}) ResetCalls() {
 	{{- range (slice .Methods 0 (len .Methods | add -1))}}""")],
